@@ -1,249 +1,19 @@
 ------------------------------- MODULE Wasm_MC -------------------------------
-(* Idiom M for Wasm.tla: the semantics itself is model-checked on an embedded  *)
-(* module whose functions compute both sides of arithmetic laws (so the        *)
-(* expected result is the constant 0), small programs whose results are        *)
-(* stated with TLA+ integer arithmetic (factorial, Fibonacci, br_table,        *)
-(* call_indirect, memory.grow), and every trap.  Every exported function is    *)
-(* called with ALL argument tuples over the boundary domain D32 (or the listed *)
-(* small domains), each call on a fresh instance, on the module and on a       *)
-(* syntactically different equivalent (a nop in front of every body).          *)
+(* Idiom M for Wasm.tla: the semantics itself is model-checked over the cases  *)
+(* of Wasm_MCGen.tla (law functions, small programs, every trap; all argument  *)
+(* tuples over a boundary domain; each call on a fresh instance, on the module *)
+(* and on a nop-prefixed equivalent).                                          *)
 (* Invariants: TypeOK, NeverStuck, Deterministic (exactly one instruction      *)
 (* action enabled in a running state), StackDiscipline (operand-stack heights  *)
-(* at block ends and function ends), LawResults / LawStatus (expectations),    *)
-(* ObsPreserved (the nop-prefixed module behaves identically).                 *)
-EXTENDS Words, FiniteSets, TLC, SequencesExt
+(* at block ends and function ends), LawResults / LawStatus / LawInit (the     *)
+(* expectations stated in Wasm_MCGen), ObsPreserved (the nop-prefixed module   *)
+(* behaves identically).                                                       *)
+EXTENDS Json, IOUtils, TLC, Naturals, Sequences
 
+JsonCases == JsonDeserialize(IOEnv.TRACE_FILE)
 VARIABLES chunk, i, ph, ci, stack, mem, pages, glob, tab, calls, status, why, ret, steps, olog
+INSTANCE Wasm WITH Cases <- JsonCases
 
-(* ---- instruction constructors ------------------------------------------------ *)
-N(t, o) == [op |-> t \o "." \o o, t |-> t, o |-> o]
-K(t, w) == [op |-> t \o ".const", t |-> t, o |-> "const", v |-> w]
-K32(n) == K("i32", WFromInt(n, 4))
-K64(n) == K("i64", WFromInt(n, 8))
-LG(x) == [op |-> "local.get", t |-> "local", o |-> "get", x |-> x]
-LS(x) == [op |-> "local.set", t |-> "local", o |-> "set", x |-> x]
-LT(x) == [op |-> "local.tee", t |-> "local", o |-> "tee", x |-> x]
-GG(x) == [op |-> "global.get", t |-> "global", o |-> "get", x |-> x]
-GS(x) == [op |-> "global.set", t |-> "global", o |-> "set", x |-> x]
-B0(op) == [op |-> op, t |-> "", o |-> op]
-BE == [k |-> "empty"]
-BV(ty) == [k |-> "val", ty |-> ty]
-BI(x) == [k |-> "idx", x |-> x]
-Blk(op, bt) == [op |-> op, t |-> "", o |-> op, bt |-> bt]
-iBr(l) == [op |-> "br", t |-> "", o |-> "br", l |-> l]
-iBrIf(l) == [op |-> "br_if", t |-> "", o |-> "br_if", l |-> l]
-iBrT(ls, d) == [op |-> "br_table", t |-> "", o |-> "br_table", ls |-> ls, d |-> d]
-iCall(x) == [op |-> "call", t |-> "", o |-> "call", x |-> x]
-iCallInd(ty) == [op |-> "call_indirect", t |-> "", o |-> "call_indirect", type |-> ty, table |-> 0]
-MA(t, o, off) == [op |-> t \o "." \o o, t |-> t, o |-> o, align |-> 0, off |-> WFromNat(off, 4)]
-MSize == [op |-> "memory.size", t |-> "memory", o |-> "size", m |-> 0]
-MGrow == [op |-> "memory.grow", t |-> "memory", o |-> "grow", m |-> 0]
-iEnd == B0("end")
-iElse == B0("else")
-TI32 == "i32"
-TI64 == "i64"
-W32(n) == WFromInt(n, 4)
-A == LG(0)
-B == LG(1)
-
-(* ---- the module ------------------------------------------------------------------ *)
-Types == << [params |-> <<TI32, TI32>>, results |-> <<TI32>>],     \* 0
-            [params |-> <<TI32>>, results |-> <<TI32>>],          \* 1
-            [params |-> <<TI64>>, results |-> <<TI64>>],          \* 2
-            [params |-> <<>>, results |-> <<>>],                \* 3
-            [params |-> <<>>, results |-> <<TI32>>],             \* 4
-            [params |-> <<TI32>>, results |-> <<TI32, TI32>>] >>   \* 5 (multi-value)
-
-\* function index 0 is the import  env.h : (i32) -> i32
-Fn(ty, locals, body) == [type |-> ty, locals |-> locals, body |-> body]
-DivRem(sfx) == <<A, B, N(TI32, "div_" \o sfx), B, N(TI32, "mul"), A, B, N(TI32, "rem_" \o sfx), N(TI32, "add"), A, N(TI32, "sub")>>
-Funcs == <<
-  \* 1 divrem_u, 2 divrem_s:  (a / b) * b + a % b - a
-  Fn(0, <<>>, DivRem("u")),
-  Fn(0, <<>>, DivRem("s")),
-  \* 3 rot:  rotr(rotl(a, k), k) xor a
-  Fn(0, <<>>, <<A, B, N(TI32, "rotl"), B, N(TI32, "rotr"), A, N(TI32, "xor")>>),
-  \* 4 shifts:  ((a shl k) shr_u k) xor (a and (-1 shr_u k))
-  Fn(0, <<>>, <<A, B, N(TI32, "shl"), B, N(TI32, "shr_u"), A, K32(-1), B, N(TI32, "shr_u"), N(TI32, "and"), N(TI32, "xor")>>),
-  \* 5 sar:  (a shr_s k) xor (if a < 0 then not((not a) shr_u k) else a shr_u k)
-  Fn(0, <<>>, <<A, B, N(TI32, "shr_s"),
-                A, K32(0), N(TI32, "lt_s"), Blk("if", BV(TI32)),
-                  A, K32(-1), N(TI32, "xor"), B, N(TI32, "shr_u"), K32(-1), N(TI32, "xor"),
-                iElse, A, B, N(TI32, "shr_u"), iEnd,
-                N(TI32, "xor")>>),
-  \* 6 bits:  ((a and b) + (a or b) - (a + b)) or ((a xor b) - ((a or b) - (a and b)))
-  Fn(0, <<>>, <<A, B, N(TI32, "and"), A, B, N(TI32, "or"), N(TI32, "add"), A, B, N(TI32, "add"), N(TI32, "sub"),
-                A, B, N(TI32, "xor"), A, B, N(TI32, "or"), A, B, N(TI32, "and"), N(TI32, "sub"), N(TI32, "sub"),
-                N(TI32, "or")>>),
-  \* 7 counts:  (popcnt a + popcnt(not a) - 32) or ((clz a = 32) xor (a = 0)) or ((ctz a = 32) xor eqz a)
-  \*            or (a # 0 and bit (31 - clz a) of a is clear) or (a # 0 and bit (ctz a) of a is clear)
-  Fn(0, <<>>, <<A, N(TI32, "popcnt"), A, K32(-1), N(TI32, "xor"), N(TI32, "popcnt"), N(TI32, "add"), K32(32), N(TI32, "sub"),
-                A, N(TI32, "clz"), K32(32), N(TI32, "eq"), A, N(TI32, "eqz"), N(TI32, "xor"), N(TI32, "or"),
-                A, N(TI32, "ctz"), K32(32), N(TI32, "eq"), A, N(TI32, "eqz"), N(TI32, "xor"), N(TI32, "or"),
-                A, Blk("if", BV(TI32)),
-                  A, K32(31), A, N(TI32, "clz"), N(TI32, "sub"), N(TI32, "shr_u"), K32(1), N(TI32, "and"), N(TI32, "eqz"),
-                  A, A, N(TI32, "ctz"), N(TI32, "shr_u"), K32(1), N(TI32, "and"), N(TI32, "eqz"), N(TI32, "or"),
-                iElse, K32(0), iEnd,
-                N(TI32, "or")>>),
-  \* 8 cmps: every comparison against its mirror image / negation
-  Fn(0, <<>>, <<A, B, N(TI32, "lt_s"), B, A, N(TI32, "gt_s"), N(TI32, "xor"),
-                A, B, N(TI32, "le_s"), A, B, N(TI32, "gt_s"), N(TI32, "eqz"), N(TI32, "xor"), N(TI32, "or"),
-                A, B, N(TI32, "lt_u"), B, A, N(TI32, "gt_u"), N(TI32, "xor"), N(TI32, "or"),
-                A, B, N(TI32, "ge_u"), A, B, N(TI32, "lt_u"), N(TI32, "eqz"), N(TI32, "xor"), N(TI32, "or"),
-                A, B, N(TI32, "ge_s"), B, A, N(TI32, "le_s"), N(TI32, "xor"), N(TI32, "or"),
-                A, B, N(TI32, "le_u"), B, A, N(TI32, "ge_u"), N(TI32, "xor"), N(TI32, "or"),
-                A, B, N(TI32, "eq"), A, B, N(TI32, "ne"), N(TI32, "eqz"), N(TI32, "xor"), N(TI32, "or"),
-                \* signed and unsigned order differ exactly when the sign bits differ
-                A, B, N(TI32, "lt_s"), A, B, N(TI32, "lt_u"), N(TI32, "xor"),
-                A, B, N(TI32, "xor"), K32(31), N(TI32, "shr_u"), N(TI32, "xor"), N(TI32, "or")>>),
-  \* 9 ext:  extendN_s a  against  (a shl (32-N)) shr_s (32-N)
-  Fn(0, <<>>, <<A, N(TI32, "extend8_s"), A, K32(24), N(TI32, "shl"), K32(24), N(TI32, "shr_s"), N(TI32, "xor"),
-                A, N(TI32, "extend16_s"), A, K32(16), N(TI32, "shl"), K32(16), N(TI32, "shr_s"), N(TI32, "xor"), N(TI32, "or"),
-                A, N(TI64, "extend_i32_u"), N(TI64, "extend32_s"), A, N(TI64, "extend_i32_s"), N(TI64, "xor"),
-                N(TI32, "wrap_i64"), N(TI32, "or")>>),
-  \* 10 conv:  wrap(extend_s a) xor a  |  wrap(extend_u a shr_u 32)  |  wrap(extend_s a shr_s 32) xor (a shr_s 31)
-  Fn(0, <<>>, <<A, N(TI64, "extend_i32_s"), N(TI32, "wrap_i64"), A, N(TI32, "xor"),
-                A, N(TI64, "extend_i32_u"), K64(32), N(TI64, "shr_u"), N(TI32, "wrap_i64"), N(TI32, "or"),
-                A, N(TI64, "extend_i32_s"), K64(32), N(TI64, "shr_s"), N(TI32, "wrap_i64"), A, K32(31), N(TI32, "shr_s"),
-                N(TI32, "xor"), N(TI32, "or"),
-                \* 64-bit multiply of the zero-extended operands, low half = 32-bit multiply
-                A, N(TI64, "extend_i32_u"), B, N(TI64, "extend_i32_u"), N(TI64, "mul"), N(TI32, "wrap_i64"),
-                A, B, N(TI32, "mul"), N(TI32, "xor"), N(TI32, "or")>>),
-  \* 11 mem:  store a at 8 and b at 12, read back with every width
-  Fn(0, <<>>, <<K32(8), A, MA(TI32, "store", 0), K32(4), B, MA(TI32, "store", 8),
-                K32(8), MA(TI32, "load8_u", 0), K32(8), MA(TI32, "load8_u", 1), K32(8), N(TI32, "shl"), N(TI32, "or"),
-                K32(8), MA(TI32, "load16_u", 2), K32(16), N(TI32, "shl"), N(TI32, "or"), A, N(TI32, "xor"),
-                K32(8), MA(TI64, "load", 0), A, N(TI64, "extend_i32_u"), B, N(TI64, "extend_i32_u"), K64(32), N(TI64, "shl"),
-                N(TI64, "or"), N(TI64, "ne"), N(TI32, "or"),
-                K32(8), MA(TI32, "load16_s", 0), A, N(TI32, "extend16_s"), N(TI32, "xor"), N(TI32, "or"),
-                K32(0), MA(TI32, "load8_s", 11), A, K32(24), N(TI32, "shr_s"), N(TI32, "xor"), N(TI32, "or"),
-                K32(12), MA(TI64, "load32_s", 0), B, N(TI64, "extend_i32_s"), N(TI64, "ne"), N(TI32, "or"),
-                K32(12), MA(TI64, "load32_u", 0), B, N(TI64, "extend_i32_u"), N(TI64, "ne"), N(TI32, "or"),
-                \* narrow stores only touch their bytes
-                K32(9), K32(0), MA(TI32, "store8", 0), K32(8), K64(-1), MA(TI64, "store16", 2),
-                K32(8), MA(TI32, "load", 0), A, K32(255), N(TI32, "and"), K32(-65536), N(TI32, "or"), N(TI32, "xor"), N(TI32, "or"),
-                K32(12), MA(TI32, "load", 0), B, N(TI32, "xor"), N(TI32, "or")>>),
-  \* 12 fac (i64, loop / br_if / br)
-  Fn(2, <<TI64>>, <<K64(1), LS(1), Blk("block", BE), Blk("loop", BE), A, N(TI64, "eqz"), iBrIf(1),
-                   LG(1), A, N(TI64, "mul"), LS(1), A, K64(1), N(TI64, "sub"), LS(0), iBr(0), iEnd, iEnd, LG(1)>>),
-  \* 13 fib (recursion; function index 13)
-  Fn(1, <<>>, <<A, K32(2), N(TI32, "lt_u"), Blk("if", BV(TI32)), A, iElse,
-                A, K32(1), N(TI32, "sub"), iCall(13), A, K32(2), N(TI32, "sub"), iCall(13), N(TI32, "add"), iEnd>>),
-  \* 14 brt: three value blocks; every target takes one i32
-  Fn(0, <<>>, <<Blk("block", BV(TI32)), Blk("block", BV(TI32)), Blk("block", BV(TI32)),
-                B, A, iBrT(<<0, 1, 2, 3, 0>>, 3),
-                iEnd, K32(10), N(TI32, "add"), iEnd, K32(20), N(TI32, "mul"), iEnd, K32(3), N(TI32, "sub")>>),
-  \* 15 inc, 16 dbl, 17 neg64: table entries
-  Fn(1, <<>>, <<A, K32(1), N(TI32, "add")>>),
-  Fn(1, <<>>, <<A, K32(2), N(TI32, "mul")>>),
-  Fn(2, <<>>, <<K64(0), A, N(TI64, "sub")>>),
-  \* 18 calli: table[a](b) with the (i32) -> i32 signature
-  Fn(0, <<>>, <<B, A, iCallInd(1)>>),
-  \* 19 oob: i32.load offset=65532 (a)
-  Fn(1, <<>>, <<A, MA(TI32, "load", 65532)>>),
-  \* 20 grow: memory.grow a, then memory.size * 256 + (old size and 255)
-  Fn(1, <<>>, <<A, MGrow, K32(255), N(TI32, "and"), MSize, K32(256), N(TI32, "mul"), N(TI32, "add")>>),
-  \* 21 glob: g0 := a; g0 + b, through tee / drop / nop / select
-  Fn(0, <<TI32>>, <<A, GS(0), B0("nop"), GG(0), LT(2), B0("drop"), LG(2), B, N(TI32, "add"), K32(77), A, B0("select")>>),
-  \* 22 unr
-  Fn(4, <<>>, <<B0("unreachable")>>),
-  \* 23 float (outside the model)
-  Fn(4, <<>>, <<[op |-> "f32.const", t |-> "f32", o |-> "const"], B0("drop"), K32(1)>>),
-  \* 24 spin (runs out of fuel)
-  Fn(3, <<>>, <<Blk("loop", BE), iBr(0), iEnd>>),
-  \* 25 imp: h(a) + h(b)
-  Fn(0, <<>>, <<A, iCall(0), B, iCall(0), N(TI32, "add")>>),
-  \* 26 ret: early return from nested blocks with operands left on the stack; loop with a parameter (type 1);
-  \*         if without else; br_if to the function label
-  Fn(0, <<>>, <<K32(5), A, iBrIf(0), B0("drop"),
-                Blk("block", BV(TI32)), K32(1), K32(2), B, K32(1), N(TI32, "eq"), Blk("if", BE), K32(9), B0("return"), iEnd,
-                B0("drop"), iEnd,
-                B, Blk("loop", BI(1)), K32(1), N(TI32, "sub"), LT(1), LG(1), K32(0), N(TI32, "gt_s"), iBrIf(0), iEnd,
-                N(TI32, "add")>>),
-  \* 27 multi: (a) -> (a + 1, a * 2) and 28 usemulti: sums the two results
-  Fn(5, <<>>, <<A, K32(1), N(TI32, "add"), A, K32(2), N(TI32, "mul")>>),
-  Fn(1, <<>>, <<A, iCall(27), N(TI32, "sub")>>),
-  \* 29 start function: g1 := 7, mem[100] := g1
-  Fn(3, <<>>, <<K32(7), GS(1), K32(100), GG(1), MA(TI32, "store8", 0)>>),
-  \* 30 getstart: g1 * 256 + mem8[100] + mem8[41] (data segment)
-  Fn(4, <<>>, <<GG(1), K32(256), N(TI32, "mul"), K32(100), MA(TI32, "load8_u", 0), N(TI32, "add"),
-                K32(40), MA(TI32, "load8_u", 1), N(TI32, "add")>>)
->>
-
-ExportNames == <<"divrem_u", "divrem_s", "rot", "shifts", "sar", "bits", "counts", "cmps", "ext", "conv", "mem", "fac",
-                 "fib", "brt", "inc", "dbl", "neg64", "calli", "oob", "grow", "glob", "unr", "float", "spin", "imp",
-                 "ret", "multi", "usemulti", "startfn", "getstart">>
-
-Mod(prefix) ==
-  [types |-> Types,
-   imports |-> << [mod |-> "env", name |-> "h", kind |-> "func", type |-> 1] >>,
-   funcs |-> Mk([k \in 1..Len(Funcs) |-> [Funcs[k] EXCEPT !.body = prefix \o @]]),
-   tables |-> << [kind |-> "funcref", min |-> 5, max |-> -1] >>,
-   mems |-> << [min |-> 1, max |-> 2] >>,
-   globals |-> << [ty |-> TI32, mut |-> TRUE, init |-> <<K32(0)>>], [ty |-> TI32, mut |-> TRUE, init |-> <<K32(1)>>],
-                  [ty |-> TI64, mut |-> FALSE, init |-> <<K64(-2)>>] >>,
-   exports |-> Mk([k \in 1..Len(ExportNames) |-> [name |-> ExportNames[k], kind |-> "func", idx |-> k]]),
-   start |-> 29,
-   elems |-> << [mode |-> "active", table |-> 0, offset |-> <<K32(0)>>, refs |-> <<15, 16, 17>>],
-                [mode |-> "passive", table |-> -1, offset |-> <<>>, refs |-> <<15>>] >>,
-   datas |-> << [mode |-> "active", mem |-> 0, offset |-> <<K32(40)>>, bytes |-> <<3, 4, 5>>],
-                [mode |-> "active", mem |-> 0, offset |-> <<K32(65535)>>, bytes |-> <<9>>] >>]
-
-Mods == <<Mod(<<>>), Mod(<<B0("nop")>>)>>
-
-(* ---- argument domains and expectations ----------------------------------------------- *)
-Min32 == <<0, 0, 0, 128>>
-Max32 == <<255, 255, 255, 127>>
-CONSTANT Wide
-D32 == IF Wide THEN {W32(0), W32(1), W32(2), W32(7), W32(-1), W32(-8), W32(31), W32(32), W32(33), W32(255), W32(65536), Min32, Max32}
-       ELSE {W32(0), W32(1), W32(-1), W32(33), Min32, Max32}
-S32 == {W32(0), W32(1), W32(-1), W32(33), Min32, Max32}
-Zero == <<W32(0)>>
-Ok(r) == [status |-> "ok", ret |-> r]
-TrapE == [status |-> "trap", ret |-> <<>>]
-NoVerdict(st) == [status |-> st, ret |-> <<>>]
-
-RECURSIVE Fac(_)
-Fac(n) == IF n = 0 THEN 1 ELSE n * Fac(n - 1)
-RECURSIVE Fib(_)
-Fib(n) == IF n < 2 THEN n ELSE Fib(n - 1) + Fib(n - 2)
-
-MkCall(fn, args, exp) == [fn |-> fn, args |-> args, exp |-> exp]
-Pairs(fn, D, exp(_, _)) == {MkCall(fn, <<a, b>>, exp(a, b)) : a \in D, b \in D}
-ZeroLaw(a, b) == Ok(Zero)
-
-ExtStub == << [name |-> "h", rets |-> <<W32(40), W32(2)>>] >>
-
-AllCalls ==
-    Pairs("divrem_u", D32, LAMBDA a, b : IF WIsZero(b) THEN TrapE ELSE Ok(Zero))
-    \cup Pairs("divrem_s", D32, LAMBDA a, b : IF WIsZero(b) \/ (a = Min32 /\ b = W32(-1)) THEN TrapE ELSE Ok(Zero))
-    \cup Pairs("rot", D32, ZeroLaw) \cup Pairs("shifts", D32, ZeroLaw) \cup Pairs("sar", D32, ZeroLaw)
-    \cup Pairs("bits", D32, ZeroLaw) \cup Pairs("counts", D32, ZeroLaw) \cup Pairs("cmps", D32, ZeroLaw)
-    \cup Pairs("ext", D32, ZeroLaw) \cup Pairs("conv", D32, ZeroLaw) \cup Pairs("mem", D32, ZeroLaw)
-    \cup {MkCall("fac", <<WFromNat(n, 8)>>, Ok(<<WFromNat(Fac(n), 8)>>)) : n \in 0..8}
-    \cup {MkCall("fib", <<W32(n)>>, Ok(<<W32(Fib(n))>>)) : n \in 0..8}
-    \cup {MkCall("brt", <<W32(k), W32(v)>>,
-               Ok(<<W32(CASE k \in {0, 4} -> (v + 10) * 20 - 3 [] k = 1 -> v * 20 - 3 [] k = 2 -> v - 3 [] OTHER -> v)>>))
-          : k \in -1..6, v \in {0, 5}}
-    \cup {MkCall("calli", <<W32(k), W32(v)>>,
-               CASE k = 0 -> Ok(<<W32(v + 1)>>) [] k = 1 -> Ok(<<W32(2 * v)>>) [] OTHER -> TrapE)
-          : k \in -1..6, v \in {0, 21}}
-    \cup {MkCall("oob", <<a>>, IF a = W32(0) THEN Ok(<<<<0, 0, 0, 9>>>>) ELSE TrapE) : a \in D32}
-    \cup {MkCall("grow", <<a>>, Ok(<<IF a = W32(0) THEN W32(256 + 1) ELSE IF a = W32(1) THEN W32(512 + 1) ELSE W32(256 + 255)>>))
-          : a \in D32}
-    \cup Pairs("glob", S32, LAMBDA a, b : Ok(<<IF WIsZero(a) THEN W32(77) ELSE WAdd(a, b)>>))
-    \cup {MkCall("unr", <<>>, TrapE), MkCall("float", <<>>, NoVerdict("outofmodel")), MkCall("spin", <<>>, NoVerdict("fuel")),
-          MkCall("imp", <<W32(3), W32(4)>>, Ok(<<W32(42)>>)), MkCall("getstart", <<>>, Ok(<<W32(7 * 256 + 7 + 4)>>)),
-          MkCall("neg64", <<WFromInt(5, 8)>>, Ok(<<WFromInt(-5, 8)>>))}
-    \cup {MkCall("ret", <<W32(a), W32(b)>>,
-               Ok(<<W32(IF a # 0 THEN 5 ELSE IF b = 1 THEN 9 ELSE IF b = 0 THEN 0 ELSE 1)>>))
-          : a \in {0, 1}, b \in {0, 1, 3}}
-    \cup {MkCall("usemulti", <<W32(v)>>, Ok(<<W32((v + 1) - 2 * v)>>)) : v \in {0, 5, -3}}
-    \cup {MkCall("multi", <<W32(v)>>, Ok(<<W32(v + 1), W32(2 * v)>>)) : v \in {0, 5, -3}}
-
-McCases == SetToSeq({[id |-> c.fn, mods |-> Mods, calls |-> <<c>>, ext |-> ExtStub, fuel |-> 400] : c \in AllCalls})
-
-INSTANCE Wasm WITH Cases <- McCases
 
 (* ---- invariants of the semantics itself --------------------------------------------------- *)
 B2N(b) == IF b THEN 1 ELSE 0
@@ -253,7 +23,7 @@ EnabledCount ==
     + B2N(ENABLED (Drop /\ Rest)) + B2N(ENABLED (Select /\ Rest)) + B2N(ENABLED (LocalGet /\ Rest)) + B2N(ENABLED (LocalSet /\ Rest)) + B2N(ENABLED (GlobalGet /\ Rest))
     + B2N(ENABLED (GlobalSet /\ Rest)) + B2N(ENABLED (Load /\ Rest)) + B2N(ENABLED (Store /\ Rest)) + B2N(ENABLED (MemorySize /\ Rest)) + B2N(ENABLED (MemoryGrow /\ Rest))
     + B2N(ENABLED (Nop /\ Rest)) + B2N(ENABLED (Unreachable /\ Rest)) + B2N(ENABLED (Block /\ Rest)) + B2N(ENABLED (Loop /\ Rest)) + B2N(ENABLED (If /\ Rest))
-    + B2N(ENABLED (iElse /\ Rest)) + B2N(ENABLED (iEnd /\ Rest)) + B2N(ENABLED (FuncEnd /\ Rest)) + B2N(ENABLED (Br /\ Rest)) + B2N(ENABLED (BrIf /\ Rest))
+    + B2N(ENABLED (Else /\ Rest)) + B2N(ENABLED (End /\ Rest)) + B2N(ENABLED (FuncEnd /\ Rest)) + B2N(ENABLED (Br /\ Rest)) + B2N(ENABLED (BrIf /\ Rest))
     + B2N(ENABLED (BrTable /\ Rest)) + B2N(ENABLED (Return /\ Rest)) + B2N(ENABLED (Call /\ Rest)) + B2N(ENABLED (CallIndirect /\ Rest))
     + B2N(ENABLED (NotModelled /\ Rest))
 Deterministic == Running => EnabledCount = 1
@@ -270,6 +40,6 @@ StackDiscipline ==
 Exp == C.calls[ci].exp
 LawStatus == (Finished /\ ci > 0) => status = Exp.status
 LawResults == (Finished /\ ci > 0 /\ status = "ok") => ret = Exp.ret
-LawInit == (Finished /\ ci = 0) => (status = "ok" /\ glob[2] = W32(7) /\ MemAt(mem, 100) = 7 /\ MemAt(mem, 65535) = 9
+LawInit == (Finished /\ ci = 0) => (status = "ok" /\ glob[2] = I32(7) /\ MemAt(mem, 100) = 7 /\ MemAt(mem, 65535) = 9
                                     /\ tab = <<15, 16, 17, -1, -1>> /\ pages = 1)
 =============================================================================
